@@ -246,16 +246,16 @@ theorem parseFile_alter_beyond {h : Hooks} {fuel : Nat} {buf buf' : Bytes} {st s
 
 /-! ### alignment and offsets of the file walk -/
 
-theorem align8_eq (v : Nat) (h : v + 8 < 2 ^ 64) : align8 v = (v + 7) / 8 * 8 := by
+theorem v_align8_eq (v : Nat) (h : v + 8 < 2 ^ 64) : align8 v = (v + 7) / 8 * 8 := by
   unfold align8 alignGo
   have e1 : (v + 8 + 18446744073709551615) % 18446744073709551616 = v + 7 := by omega
   have e2 : (18446744073709551616 - 8) % 18446744073709551616 = 2 ^ 64 - 2 ^ 3 := by decide
   rw [e1, e2, ArithTie.and_high_mask (v + 7) 3 (by omega) (by omega)]
 
-theorem align8_ge (v : Nat) (h : v + 8 < 2 ^ 64) : v ≤ align8 v := by
-  rw [align8_eq v h]; omega
+theorem v_align8_ge (v : Nat) (h : v + 8 < 2 ^ 64) : v ≤ align8 v := by
+  rw [v_align8_eq v h]; omega
 
-theorem rd_drop (b : Bytes) (o x l : Nat) : rd (b.drop o) x l = rd b (o + x) l := by
+theorem v_rd_drop (b : Bytes) (o x l : Nat) : rd (b.drop o) x l = rd b (o + x) l := by
   unfold rd slice; rw [List.drop_drop]
 
 theorem parseFile_none {h : Hooks} {fuel : Nat} {buf : Bytes} {st st' : St}
@@ -338,7 +338,7 @@ theorem walk_bounds {h : Hooks} {data : Bytes} {lh length : Nat} {f : File} {pos
     obtain ⟨fuel0, st2, rfl, _, hlt, hpf, _, hrest⟩ := parseFiles_cons_inv hp
     obtain ⟨_, _, hle, _, hext, _⟩ := parseFile_ok_fields _ _ _ _ _ _ hpf
     rw [List.length_drop] at hle
-    have hge := align8_ge offset ho
+    have hge := v_align8_ge offset ho
     have := walk_bounds hbig pre fuel0 (align8 offset + g.info.extSize) st2 hrest (by omega)
     simp only [startAfter]
     omega
@@ -415,10 +415,10 @@ theorem parseFiles_alter (h : Hooks) {data data' : Bytes} {lh length : Nat} {f :
     obtain ⟨hvg, hvrest⟩ := vFiles_cons_nil hv
     obtain ⟨_, _, hle, hgbuf, hext, _⟩ := parseFile_ok_fields _ _ _ _ _ _ hpf
     rw [List.length_drop] at hle
-    have hge := align8_ge offset ho
+    have hge := v_align8_ge offset ho
     have hnext : align8 offset + g.info.extSize + 8 < 2 ^ 64 := by omega
     obtain ⟨hb1, hb2, _⟩ := walk_bounds hbig pre fuel0 _ st2 hrest hnext
-    have hge2 := align8_ge _ hb2
+    have hge2 := v_align8_ge _ hb2
     -- the file `g` before the altered one is parsed as before
     have okg := (validateFileNode_nil_iff _ _).mp hvg
     have hglen : g.buf.length = g.info.extSize := okg.size
@@ -515,7 +515,7 @@ theorem parseFv_ffs_eq {h : Hooks} {fuel0 : Nat} {data : Bytes} {off : Nat} {rs 
           refine ⟨?_, free, rfl⟩
           simp only [Fv.info]
 
-theorem rd_lt (b : Bytes) (o l : Nat) : rd b o l < 256 ^ l := by
+theorem v_rd_lt (b : Bytes) (o l : Nat) : rd b o l < 256 ^ l := by
   unfold rd
   have h1 := fromLE_lt (slice b o l)
   have h2 : (slice b o l).length ≤ l := by unfold slice; rw [List.length_take]; omega
@@ -523,16 +523,16 @@ theorem rd_lt (b : Bytes) (o l : Nat) : rd b o l < 256 ^ l := by
 
 theorem doOf_bound (data : Bytes) : doOf data + 8 < 2 ^ 64 := by
   unfold doOf
-  have h1 := rd_lt data 52 2
-  have h2 := rd_lt data (rd data 52 2 + 16) 4
-  have h3 := rd_lt data 48 2
+  have h1 := v_rd_lt data 52 2
+  have h2 := v_rd_lt data (rd data 52 2 + 16) 4
+  have h3 := v_rd_lt data 48 2
   have e2 : (256 : Nat) ^ 2 = 65536 := by decide
   have e4 : (256 : Nat) ^ 4 = 4294967296 := by decide
   rw [e2] at h1 h3
   rw [e4] at h2
   split
-  · rw [align8_eq _ (by omega)]; omega
-  · rw [align8_eq _ (by omega)]; omega
+  · rw [v_align8_eq _ (by omega)]; omega
+  · rw [v_align8_eq _ (by omega)]; omega
 
 theorem vFv_nil {fv : Fv} (h : vFv fv = []) : validateFvNode fv.info fv.buf = [] ∧ vFiles fv.files = [] := by
   cases fv with
